@@ -235,6 +235,8 @@ def check_C04(tier):
     t = tier == "thorough"
     engine_witness(c, "AggEmptyGroupDropped", "CoreMenu", lines="LinesAgg")
     engine_run(c, "agg", "AggMenu", lines="LinesAgg", maxlines=4 if t else 3, maxfiles=1, tdefs=("plain",) if not t else ("plain", "knn", "vdef"), modes=("batch",))
+    # a REAL column (table variant vreal): every aggregate over REAL inputs whose sums are exactly representable
+    engine_run(c, "real-column", "RealMenu", lines="LinesReal", maxlines=3, maxfiles=1, tdefs=("vreal",), modes=("batch", "incr") if t else ("batch",))
     # aggregates over TIMESTAMP and INTERVAL values (MIN / MAX by instant, SUM / AVG of intervals, GROUP BY a timestamp, DISTINCT on them)
     engine_run(c, "calendar-agg", "CalAggMenu", lines="LinesCal", maxlines=3, maxfiles=1, tdefs=("plain",), modes=("batch",))
     # HAVING and DISTINCT together judge every group on its own key and aggregates
@@ -657,6 +659,7 @@ def check_C15(tier):
     c.add_report(vh_replay("reader", rr.replay_path, "reader-c15"), "FileExecutor / join loader line reading vs Reader.tla (replay)")
     # aggregates over REALs closer than f64::EPSILON / the two zeros / NaN, in both arrival orders (typed comparison in incremental mode)
     engine_run(c, "real-order", "RealOrderMenu", lines="LinesPick", maxlines=3, maxfiles=1, modes=("incr",), tdefs=("plain",), invs=["TypeOK", "IncrRefinesSem", "PermLaw"], props=())
+    engine_run(c, "order-real-column", "RealMenu", lines="LinesReal", maxlines=3, maxfiles=1, tdefs=("vreal",), invs=["TypeOK", "BatchRefinesSem", "PermLaw"], props=())
     # order-insensitive aggregates over TIMESTAMP / INTERVAL values with NULLs in every position of a group (every ordering of every input)
     engine_run(c, "order-calendar", "CalAggMenu", lines="LinesCal", maxlines=3, maxfiles=1, tdefs=("plain",), invs=["TypeOK", "BatchRefinesSem", "PermLaw"], props=())
     # COUNT(DISTINCT) with up to 10 distinct values and recurrences: long random inputs
